@@ -69,26 +69,56 @@ const c32BadTime = 777777
 type c32Factory struct {
 	mu      sync.Mutex
 	staging string
+	store   string              // directory shared by the replay processes ("" = none)
 	simple  map[string][][]byte // "id/name" -> bytes of shard 0, shard 1
 	cmp     map[string]c32Cmp   // member key -> compound shard
+	meta    map[string][]byte   // compound key + tombstoned ids -> sidecar written by the real SetTombstone
 }
 
 type c32Cmp struct {
+	key  string
 	base string
 	data []byte
 }
 
-func c32NewFactory(staging string) *c32Factory {
-	return &c32Factory{staging: staging, simple: map[string][][]byte{}, cmp: map[string]c32Cmp{}}
+func c32NewFactory(staging, store string) *c32Factory {
+	return &c32Factory{staging: staging, store: store, simple: map[string][][]byte{}, cmp: map[string]c32Cmp{},
+		meta: map[string][]byte{}}
 }
 
-// two real shards of repository (id, name) built by the real index builder
+// shards built once are kept in the store so that every replay process does not build them again
+func (f *c32Factory) load(name string) ([]byte, bool) {
+	if f.store == "" {
+		return nil, false
+	}
+	b, err := os.ReadFile(filepath.Join(f.store, name))
+	return b, err == nil
+}
+
+func (f *c32Factory) save(name string, data []byte) {
+	if f.store == "" {
+		return
+	}
+	tmp, err := os.CreateTemp(f.store, "w-*")
+	if err != nil {
+		return
+	}
+	tmp.Write(data)
+	tmp.Close()
+	os.Rename(tmp.Name(), filepath.Join(f.store, name))
+}
+
+// two real shards of repository (id, name) built by the real index builder (caller holds f.mu)
 func (f *c32Factory) simpleShards(id uint32, name string) ([][]byte, error) {
 	key := fmt.Sprintf("%d/%s", id, name)
-	f.mu.Lock()
-	defer f.mu.Unlock()
 	if b, ok := f.simple[key]; ok {
 		return b, nil
+	}
+	if b0, ok := f.load(fmt.Sprintf("simple_%d_%s_0", id, name)); ok {
+		if b1, ok := f.load(fmt.Sprintf("simple_%d_%s_1", id, name)); ok {
+			f.simple[key] = [][]byte{b0, b1}
+			return f.simple[key], nil
+		}
 	}
 	dir, err := os.MkdirTemp(f.staging, "simple-*")
 	if err != nil {
@@ -128,6 +158,7 @@ func (f *c32Factory) simpleShards(id uint32, name string) ([][]byte, error) {
 			return nil, err
 		}
 		res = append(res, data)
+		f.save(fmt.Sprintf("simple_%d_%s_%d", id, name, k), data)
 	}
 	f.simple[key] = res
 	return res, nil
@@ -137,14 +168,19 @@ func (f *c32Factory) simpleShards(id uint32, name string) ([][]byte, error) {
 func (f *c32Factory) compound(mem []c32Mem) (c32Cmp, error) {
 	key := ""
 	for _, m := range mem {
-		key += fmt.Sprintf("%d/%s;", m.ID, m.Nm)
+		key += fmt.Sprintf("%d_%s_", m.ID, m.Nm)
 	}
 	f.mu.Lock()
+	defer f.mu.Unlock()
 	if c, ok := f.cmp[key]; ok {
-		f.mu.Unlock()
 		return c, nil
 	}
-	f.mu.Unlock()
+	if data, ok := f.load("cmp_" + key + "data"); ok {
+		if base, ok := f.load("cmp_" + key + "name"); ok {
+			f.cmp[key] = c32Cmp{key: key, base: string(base), data: data}
+			return f.cmp[key], nil
+		}
+	}
 	dir, err := os.MkdirTemp(f.staging, "cmp-*")
 	if err != nil {
 		return c32Cmp{}, err
@@ -179,13 +215,13 @@ func (f *c32Factory) compound(mem []c32Mem) (c32Cmp, error) {
 	if err != nil {
 		return c32Cmp{}, err
 	}
-	c := c32Cmp{base: filepath.Base(dstName), data: data}
+	c := c32Cmp{key: key, base: filepath.Base(dstName), data: data}
 	if !strings.HasPrefix(c.base, "compound-") {
 		return c32Cmp{}, fmt.Errorf("unexpected compound shard name %s", c.base)
 	}
-	f.mu.Lock()
+	f.save("cmp_"+key+"data", c.data)
+	f.save("cmp_"+key+"name", []byte(c.base))
 	f.cmp[key] = c
-	f.mu.Unlock()
 	return c, nil
 }
 
@@ -236,22 +272,45 @@ func c32Materialise(f *c32Factory, root string, files []c32File, tmp int) error 
 				return err
 			}
 			tomb := false
-			for _, m := range x.Mem {
+			mkey := c.key
+			for _, m := range alive {
 				if m.Tb {
 					tomb = true
-					if err := index.SetTombstone(path, m.ID); err != nil {
+					mkey += fmt.Sprintf("/%d", m.ID)
+				}
+			}
+			f.mu.Lock()
+			meta, cached := f.meta[mkey]
+			f.mu.Unlock()
+			if x.Mf && cached {
+				// the sidecar the real SetTombstone wrote the first time this was asked for
+				if err := os.WriteFile(path+".meta", meta, 0o644); err != nil {
+					return err
+				}
+			} else if x.Mf {
+				for _, m := range x.Mem {
+					if m.Tb {
+						if err := index.SetTombstone(path, m.ID); err != nil {
+							return err
+						}
+					}
+				}
+				if !tomb {
+					// a sidecar without tombstones: set and unset on the first member
+					if err := index.SetTombstone(path, x.Mem[0].ID); err != nil {
+						return err
+					}
+					if err := index.UnsetTombstone(path, x.Mem[0].ID); err != nil {
 						return err
 					}
 				}
-			}
-			if x.Mf && !tomb {
-				// a sidecar without tombstones: set and unset on the first member
-				if err := index.SetTombstone(path, x.Mem[0].ID); err != nil {
+				meta, err := os.ReadFile(path + ".meta")
+				if err != nil {
 					return err
 				}
-				if err := index.UnsetTombstone(path, x.Mem[0].ID); err != nil {
-					return err
-				}
+				f.mu.Lock()
+				f.meta[mkey] = meta
+				f.mu.Unlock()
 			}
 			if !x.Mf && tomb {
 				return fmt.Errorf("script asks for a tombstone without sidecar")
@@ -265,7 +324,9 @@ func c32Materialise(f *c32Factory, root string, files []c32File, tmp int) error 
 			if err != nil || k > 1 {
 				return fmt.Errorf("bad shard number in %q", x.F)
 			}
+			f.mu.Lock()
 			sh, err := f.simpleShards(x.Mem[0].ID, x.Mem[0].Nm)
+			f.mu.Unlock()
 			if err != nil {
 				return err
 			}
@@ -349,7 +410,12 @@ func c32ProjectShard(dir, l, n string, hasMeta bool, ncmp *int, p *c32Proj) c32F
 			x.Mt = int(d / time.Hour)
 		}
 	}
-	repos, _, err := index.ReadMetadataPath(path)
+	// metadata through index.ReadMetadata on the bytes of the file (it consults <path>.meta itself)
+	data, err := os.ReadFile(path)
+	var repos []*zoekt.Repository
+	if err == nil {
+		repos, _, err = index.ReadMetadata(&c32MemFile{name: path, data: data})
+	}
 	if err != nil {
 		p.Junk = append(p.Junk, l+":unreadable:"+x.F)
 		return x
@@ -391,6 +457,21 @@ func c32ProjectShard(dir, l, n string, hasMeta bool, ncmp *int, p *c32Proj) c32F
 	return x
 }
 
+type c32MemFile struct {
+	name string
+	data []byte
+}
+
+func (m *c32MemFile) Read(off, sz uint32) ([]byte, error) {
+	if uint64(off)+uint64(sz) > uint64(len(m.data)) {
+		return nil, fmt.Errorf("out of bounds: %d+%d > %d", off, sz, len(m.data))
+	}
+	return m.data[off : off+sz], nil
+}
+func (m *c32MemFile) Size() (uint32, error) { return uint32(len(m.data)), nil }
+func (m *c32MemFile) Close()                {}
+func (m *c32MemFile) Name() string          { return m.name }
+
 // ---------------------------------------------------------------- snapshot of a directory
 
 type c32Snap struct {
@@ -426,10 +507,25 @@ func c32Snapshot(root string) ([]c32Snap, error) {
 }
 
 func c32Wipe(root string) error {
-	if err := os.RemoveAll(root); err != nil {
+	trash := filepath.Join(root, ".trash")
+	if err := os.MkdirAll(trash, 0o755); err != nil {
 		return err
 	}
-	return os.MkdirAll(filepath.Join(root, ".trash"), 0o755)
+	for _, dir := range []string{trash, root} {
+		ents, err := os.ReadDir(dir)
+		if err != nil {
+			return err
+		}
+		for _, e := range ents {
+			if dir == root && e.Name() == ".trash" {
+				continue
+			}
+			if err := os.RemoveAll(filepath.Join(dir, e.Name())); err != nil {
+				return err
+			}
+		}
+	}
+	return nil
 }
 
 func c32Restore(root string, snap []c32Snap) error {
@@ -494,6 +590,38 @@ func c32Run(f *c32Factory, root string, k int, sc c32Script) ([]verifkit.M, erro
 	return evs, nil
 }
 
+// builds every shard the scripts can ask for into VERIF_C32_STORE (run once before the replay
+// processes start, so that they only load)
+func TestVerif_C32_Factory(t *testing.T) {
+	store := os.Getenv("VERIF_C32_STORE")
+	if store == "" {
+		t.Skip("VERIF_C32_STORE not set")
+	}
+	log.SetOutput(io.Discard)
+	if err := os.MkdirAll(store, 0o755); err != nil {
+		t.Fatal(err)
+	}
+	staging, err := os.MkdirTemp(store, "staging-*")
+	if err != nil {
+		t.Fatal(err)
+	}
+	defer os.RemoveAll(staging)
+	f := c32NewFactory(staging, store)
+	one := [][]c32Mem{{}, {{ID: 1, Nm: "r1"}}, {{ID: 1, Nm: "r1x"}}}
+	two := [][]c32Mem{{}, {{ID: 2, Nm: "r2"}}, {{ID: 2, Nm: "r2x"}}}
+	for _, a := range one {
+		for _, b := range two {
+			mem := append(append([]c32Mem{}, a...), b...)
+			if len(mem) == 0 {
+				continue
+			}
+			if _, err := f.compound(mem); err != nil {
+				t.Fatal(err)
+			}
+		}
+	}
+}
+
 func TestVerif_C32_Replay(t *testing.T) {
 	scripts := verifkit.ReadScripts(t)
 	tr := verifkit.Open(t)
@@ -504,6 +632,9 @@ func TestVerif_C32_Replay(t *testing.T) {
 	debugLog.SetOutput(io.Discard)
 
 	work := os.Getenv("VERIF_WORK")
+	if d := os.Getenv("VERIF_C32_SCRATCH"); d != "" {
+		work = d
+	}
 	if work == "" {
 		work = t.TempDir()
 	}
@@ -516,9 +647,15 @@ func TestVerif_C32_Replay(t *testing.T) {
 	if err := os.MkdirAll(staging, 0o755); err != nil {
 		t.Fatal(err)
 	}
-	f := c32NewFactory(staging)
+	store := os.Getenv("VERIF_C32_STORE")
+	if store != "" {
+		if err := os.MkdirAll(store, 0o755); err != nil {
+			t.Fatal(err)
+		}
+	}
+	f := c32NewFactory(staging, store)
 
-	workers := verifkit.EnvInt("VERIF_C32_WORKERS", 8)
+	workers := verifkit.EnvInt("VERIF_C32_WORKERS", 1)
 	var emitMu sync.Mutex
 	var wg sync.WaitGroup
 	var firstErr error
